@@ -124,6 +124,7 @@ type analyser struct {
 	calls   []string
 	gate    []string
 	touches map[string]bool
+	resizes  [][2]string // (field, length expression): if cap(x.f) >= n { x.f = x.f[:n] … } else { x.f = make(T, n) }
 	reslices []string // fields bound to a local by v := obj.f[:hi] (length re-established from this call's dimensions)
 	hitBody bool // treat `if cond-on-obj { …; return }` as the reuse gate
 }
@@ -355,6 +356,7 @@ func (a *analyser) stmt(s ast.Stmt, rangeOver, rangeKey string) *wset {
 			w.merge(a.stmt(x.Init, rangeOver, rangeKey))
 		}
 		a.noteTouches(x.Cond)
+		a.noteResize(x)
 		if a.hitBody && x.Else == nil && endsWithReturn(x.Body) && len(condFields(a, x.Cond)) > 0 && len(a.gate) == 0 {
 			// the reuse gate: its body is the path on which the pooled object is kept
 			a.gate = condFields(a, x.Cond)
@@ -456,6 +458,60 @@ func (a *analyser) stmt(s ast.Stmt, rangeOver, rangeKey string) *wset {
 		w.merge(a.stmt(x.Stmt, rangeOver, rangeKey))
 	}
 	return w
+}
+
+// noteResize recognises the reuse-or-grow guard
+//
+//	if cap(x.f) >= n { x.f = x.f[:n] … } else { x.f = make(T, n) }     (or make(T, n, c) with len n)
+//
+// whose two branches leave x.f with the same length expression n.
+func (a *analyser) noteResize(x *ast.IfStmt) {
+	be, ok := x.Cond.(*ast.BinaryExpr)
+	if !ok || be.Op != token.GEQ {
+		return
+	}
+	c, ok := be.X.(*ast.CallExpr)
+	if !ok || identName(c.Fun) != "cap" || len(c.Args) != 1 {
+		return
+	}
+	f, d, _, ok := a.rootField(c.Args[0])
+	if !ok || d != 1 {
+		return
+	}
+	els, ok := x.Else.(*ast.BlockStmt)
+	if !ok {
+		return
+	}
+	lenIn := func(stmts []ast.Stmt, wantMake bool) (string, bool) {
+		for _, s := range stmts {
+			as, ok := s.(*ast.AssignStmt)
+			if !ok || as.Tok != token.ASSIGN || len(as.Lhs) != 1 || len(as.Rhs) != 1 {
+				continue
+			}
+			if g, d, _, ok := a.rootField(as.Lhs[0]); !ok || d != 1 || g != f {
+				continue
+			}
+			switch r := as.Rhs[0].(type) {
+			case *ast.SliceExpr:
+				if wantMake || r.Low != nil || r.High == nil {
+					continue
+				}
+				if g, d, _, ok := a.rootField(r.X); ok && d == 1 && g == f {
+					return types.ExprString(r.High), true
+				}
+			case *ast.CallExpr:
+				if wantMake && identName(r.Fun) == "make" && len(r.Args) >= 2 {
+					return types.ExprString(r.Args[1]), true
+				}
+			}
+		}
+		return "", false
+	}
+	n1, ok1 := lenIn(x.Body.List, false)
+	n2, ok2 := lenIn(els.List, true)
+	if ok1 && ok2 && n1 == n2 {
+		a.resizes = append(a.resizes, [2]string{f, n1})
+	}
 }
 
 func identName(e ast.Expr) string {
@@ -1095,6 +1151,15 @@ func genFields() (string, string) {
 			}
 			if len(a.calls) > 0 || a.hitBody {
 				fmt.Fprintf(&b, "Definition %s_calls : list string := %s.\n", base, wrap(coqStrList(a.calls)))
+			}
+			{
+				q := make([]string, len(a.resizes))
+				for i, r := range a.resizes {
+					q[i] = fmt.Sprintf(`("%s", "%s")`, r[0], strings.ReplaceAll(r[1], `"`, "'"))
+				}
+				if len(q) > 0 {
+					fmt.Fprintf(&b, "Definition %s_resizes : list (string * string) :=\n  %s.\n", base, wrap("["+strings.Join(q, "; ")+"]"))
+				}
 			}
 			if fs.touches {
 				var t []string
